@@ -30,3 +30,4 @@ MUTANTS.append(dict(name="content-type-param-memo-keyed-by-content-type-only", f
     old='        Returns:\n            Dictionary with \'name\' and \'type\' keys\n        """\n', new='        Returns:\n            Dictionary with \'name\' and \'type\' keys\n        """\n        if content_type not in self._content_type_params:\n            self._content_type_params[content_type] = self._map_content_type_param(content_type, schema, context)\n        return self._content_type_params[content_type]\n\n    def _map_content_type_param(self, content_type: str, schema: Any, context: RenderContext) -> dict[str, str]:\n', also=('        self.docstring_generator = EndpointDocstringGenerator(self.schemas)\n', '        self.docstring_generator = EndpointDocstringGenerator(self.schemas)\n        self._content_type_params: dict = {}\n')))
 MUTANTS.append(dict(name="handler-sorts-ir-responses-in-place", file='visit/endpoint/generators/response_handler_generator.py', expect="R13.8", old='        other_responses = [r for r in op.responses if not (processed_primary_success and r == primary_success_ir)]\n', new='        declared_responses = op.responses\n        declared_responses.sort(key=lambda r: (not r.status_code.isdigit(), r.status_code))\n        other_responses = [r for r in declared_responses if not (processed_primary_success and r == primary_success_ir)]\n'))
 MUTANTS.append(dict(name='protocol-nature-reads-a-counter', file='visit/endpoint/endpoint_visitor.py', expect='R13.5', old='                            is_async_generator = "AsyncIterator" in sig_stripped\n', new='                            is_async_generator = "AsyncIterator" in sig_stripped and i > 0\n'))
+MUTANTS.append(dict(name='path-parameters-marked-required-while-rendering', file='visit/endpoint/processors/parameter_processor.py', expect='R13.8', old='        for param in op.parameters:\n', new='        for param in op.parameters:\n            if param.param_in == "path" and not param.required:\n                # OpenAPI: path parameters are always required. Tolerate specs that leave the flag out, so that the\n                # signature, the URL template and the synthesised path variables below agree\n                param.required = True\n'))
